@@ -16,6 +16,7 @@
 #include "vf.h"
 
 #include <dlfcn.h>
+#include <fenv.h>
 #include <link.h>
 #include <locale.h>
 #include <pthread.h>
@@ -46,6 +47,8 @@ typedef struct {
     int tid, nthreads, yield;
     int64_t ledger_bad;
     char ledger_msg[160];
+    int64_t fe_bad;
+    char fe_msg[160];
 } prog_t;
 static _Atomic int cur_api[MAXT]; /* which API each thread is inside (-1 = none); relaxed atomics: the monitor is not the race */
 
@@ -137,7 +140,19 @@ static void report_nonreentrant(void) {
 static void report_nonreentrant(void) {}
 #endif
 
-#define API(id, stmt) do { enter(t, id); API_ENTER(); stmt; API_LEAVE(); leave(t, id, 0); } while (0)
+/* The floating-point environment is per-thread state that is neither a static of the library nor of libc: a call that returns
+ * with another rounding mode than it was entered with changes the result of every later call on that thread (and makes the
+ * concurrent and the sequential execution of the same program differ).  Checked around every API call; the mode is put back so
+ * that one leak is one report, not an avalanche. */
+static void fe_check(prog_t *t, int api, int before) {
+    int after = fegetround();
+    if (after != before) {
+        if (!t->fe_bad) snprintf(t->fe_msg, sizeof t->fe_msg, "%s returned with floating-point rounding mode %d, it was entered with %d", ANAME[api], after, before);
+        t->fe_bad++;
+        fesetround(before);
+    }
+}
+#define API(id, stmt) do { enter(t, id); API_ENTER(); int fe0_ = fegetround(); stmt; fe_check(t, id, fe0_); API_LEAVE(); leave(t, id, 0); } while (0)
 
 /* one step of the mixed program: everything lives on this thread's stack / heap */
 static void step(prog_t *t) {
@@ -267,7 +282,15 @@ static void step(prog_t *t) {
             LatLng save = pv[2];
             int badres = res;
             uint32_t badmode = mode;
-            switch (vf_below(r, 5)) {
+            switch (vf_below(r, 7)) {
+                case 5: /* degenerate: every vertex on one parallel (bounding box of zero height) */
+                    for (int i = 0; i < 5; i++) pv[i].lat = c.lat;
+                    break;
+                case 6: /* degenerate: every vertex on one meridian (zero width), or fewer than three vertices */
+                    if (vf_below(r, 2))
+                        for (int i = 0; i < 5; i++) pv[i].lng = c.lng;
+                    else gp.geoloop.numVerts = (int)vf_below(r, 3);
+                    break;
                 case 0: pv[2].lat = (c.lat >= 0 ? 1 : -1) * (M_PI_2 + 0.01 + 0.3 * vf_unit(r)); break;
                 case 1: pv[2].lng += (vf_below(r, 2) ? 1 : -1) * 2 * M_PI; break;
                 case 2: pv[2].lat = 1e6 * (vf_unit(r) - 0.5); break;
@@ -280,6 +303,12 @@ static void step(prog_t *t) {
             API(A_polygonToCells, e = maxPolygonToCellsSize(&gp, badres, 0, &z));
             mixh(t, &e, 4);
             pv[2] = save;
+            (void)save;
+            { /* undo the degenerate shapes */
+                LatLng pv0[5] = {{c.lat - w, c.lng - w}, {c.lat - w, c.lng + w}, {c.lat + 0.2 * w, c.lng + 1.3 * w}, {c.lat + w, c.lng + w}, {c.lat + w, c.lng - w}};
+                memcpy(pv, pv0, sizeof pv0);
+                gp.geoloop.numVerts = 5;
+            }
         }
         API(A_polygonToCellsExperimental, e = maxPolygonToCellsSizeExperimental(&gp, res, mode, &sz));
         if (!e && sz < 20000) {
@@ -331,6 +360,9 @@ static void *thread_main(void *a) {
 }
 static void account(const prog_t *t, int with_overlap) {
     char nm[96];
+    vf_add("fp_environment.api_returns_checked", 0);
+    for (int a = 0; a < A_N; a++) vf_add("fp_environment.api_returns_checked", t->calls[a]);
+    if (t->fe_bad) vf_violation("fp-environment", "library", vf_mix((uint64_t)t->fe_msg[0] * 131 + (uint64_t)t->fe_msg[5]) ^ 0xFE, "", "%s (%" PRId64 " such returns in one program)", t->fe_msg, t->fe_bad);
     for (int a = 0; a < A_N; a++) {
         snprintf(nm, sizeof nm, "calls.%s", ANAME[a]);
         vf_add(nm, t->calls[a]);
